@@ -88,7 +88,8 @@ def uses(name, d, r, limit):
     for sub in subsets[:limit]:
         order = list(sub)
         r.shuffle(order)
-        toks = [name.encode()]
+        # identifiers are case-insensitive: the same few spellings come back across registrations of the name
+        toks = [r.choice([name, name.upper(), name.capitalize()]).encode()]
         exp_args, exp_extra, need = {}, {}, set()
         for a in order:
             v = r.choice(a["values"])
@@ -143,9 +144,10 @@ def run(ctx):
         name = "cmd" + "".join(r.choice("abcdefgh") for _ in range(4)) + str(i)
         d = gen_definition(r, i)
         # unknown before registration
-        p = Parser()
-        if p.parse(wrap(d, [name.encode(), b'"x"'], set())) is not False or "unknown command" not in p.error:
-            viol.append({"what": "name %r known before registration: %r" % (name, p.error), "input": name})
+        for spelling in (name, name.upper(), name.capitalize()):
+            p = Parser()
+            if p.parse(wrap(d, [spelling.encode(), b'"x"'], set())) is not False or "unknown command" not in p.error:
+                viol.append({"what": "name %r known before registration: %r" % (spelling, p.error), "input": spelling})
         rounds = [d]
         if i % 4 == 0:
             rounds.append(gen_definition(r, 1000 + i))  # re-registration under the same name
